@@ -182,6 +182,28 @@ fn vamm_case(decimals: u8, x0: u128, y0: u128, blocks_once: &[Block], cycles: u1
                 }
             }
         }
+        // "or during its whole history if shorter": every interval that reaches back beyond the creation of the market covers the
+        // same history, so all of them have the same answer - also intervals longer than the chain's clock
+        let whole = now.saturating_sub(hist[0].0).saturating_add(1);
+        if bi % 2 == 0 || bi + 1 == blocks.len() {
+        if let Ok(a1) = sim.query::<Uint128>(QueryMsg::TwapPrice { interval: whole }) {
+            for longer in [now.saturating_add(1 + (bi as u64 % 7) * whole), u64::MAX / 2] {
+                out.count("vamm.longer_than_history_checks");
+                let a2 = catch_unwind(AssertUnwindSafe(|| sim.query::<Uint128>(QueryMsg::TwapPrice { interval: longer })));
+                let same = matches!(&a2, Ok(Ok(x)) if *x == a1);
+                if !same {
+                    let v = Violation::new(
+                        "vamm_twap_longer_than_history",
+                        format!("TwapPrice{{{}}} (the whole history) = {} but TwapPrice{{{}}} gives {:?}", whole, a1, longer, a2.map_err(|_| "PANIC")),
+                    );
+                    if let Some(v) = ctx.filter(out, v.at(bi)) {
+                        out.violation = Some(v);
+                        return;
+                    }
+                }
+            }
+        }
+        }
     }
     let distinct_prices: std::collections::BTreeSet<u128> = hist.iter().map(|(_, p)| *p).collect();
     out.nontrivial = inside_hits >= 1 && distinct_prices.len() >= 3 && multi_swap_block;
@@ -317,6 +339,30 @@ fn feed_case(rounds: &[Round], now_lag: u8, intervals: &[u16], other_pair: u8, c
             if let Some(v) = ctx.filter(out, v) {
                 out.violation = Some(v);
                 return;
+            }
+        }
+    }
+    // every window that starts before the first submission covers the same rounds: one answer, also for intervals longer than
+    // the chain's clock
+    let whole = now - subs[0].0 + 1;
+    if let Ok(Ok(b1)) = q(feed::QueryMsg::GetTwapPrice { key: "K".into(), interval: whole }) {
+        if let Ok(a1) = from_binary::<Uint128>(&b1) {
+            for longer in [whole.saturating_mul(3), now.saturating_add(1), now.saturating_mul(2), u64::MAX / 2] {
+                out.count("feed.longer_than_history_checks");
+                let a2 = match q(feed::QueryMsg::GetTwapPrice { key: "K".into(), interval: longer }) {
+                    Ok(Ok(b2)) => from_binary::<Uint128>(&b2).ok(),
+                    _ => None,
+                };
+                if a2 != Some(a1) {
+                    let v = Violation::new(
+                        "feed_twap_longer_than_history",
+                        format!("GetTwapPrice{{{}}} (all submissions) = {} but GetTwapPrice{{{}}} gives {:?}; submissions {:?}, now {}", whole, a1, longer, a2, subs, now),
+                    );
+                    if let Some(v) = ctx.filter(out, v) {
+                        out.violation = Some(v);
+                        return;
+                    }
+                }
             }
         }
     }
